@@ -171,6 +171,9 @@ func genValue(r *scen.Rand, a Alpha, av Avoid) scen.Value {
 func genStandaloneValue(r *scen.Rand, a Alpha, av Avoid) scen.Value {
 	if r.Bool(0.2) {
 		s := []string{"a\r\nb\r\n", "\r", "x\r", "<html>\r\n</html>", "no newline at end", "\n\n", "---\n[TestA - 1]\n---"}
+		if av.HeaderLike {
+			s = s[:len(s)-1]
+		}
 		return scen.Str(s[r.Intn(len(s))])
 	}
 	return genValue(r, a, av)
